@@ -301,3 +301,59 @@ func H_C15_rule_file_missing()    { vC15One(36, 4) }
 func H_C15T_rule_file_missing()   { vC15One(36, 6) }
 func H_C15_rule_dir_missing()     { vC15One(37, 4) }
 func H_C15T_rule_dir_missing()    { vC15One(37, 6) }
+
+// the extractor applied to errors produced by Var, Map and Url
+func H_C15_extract_other() {
+	a, b := vStr("a"), vStr("b")
+	var err error
+	want := ""
+	add := func(s string) {
+		if want != "" {
+			want += ErrEndFlag
+		}
+		want += s
+	}
+	switch vndChoice("entry", 3) {
+	case 0:
+		err = Var(a, "required|必须有", "nosuch", "ge=2|too short")
+		if a == "" {
+			add("必须有")
+		} else {
+			add("too short")
+		}
+	case 1:
+		err = Map(map[string]string{"k": a, "j": b}, NewRule().Set("k", "required|need k,zz").Set("j", "exist"))
+		if err == nil {
+			vReach("nil")
+			return
+		}
+		// two keys: clause order follows map iteration; compare as a set of one or two parts
+		got := GetOnlyExplainErr(err.Error())
+		if a == "" {
+			vAssert(got == "need k", "C15 extractor(Map): only the labelled clause")
+		} else {
+			vAssert(got == "", "C15 extractor(Map): no labelled clause, empty result")
+		}
+		vReach("end")
+		return
+	case 2:
+		aa := vPlainText("ua", 1)
+		err = Url("h?k="+aa+"&j=1", NewRule().Set("k", "required|需要 k,ge=2").Set("j", "exist,le=0|too big"))
+		if aa == "" {
+			add("需要 k")
+		} else {
+			add("it is less than 2 str-length")
+		}
+		add("too big")
+	}
+	vAssert(err != nil, "C15 extractor(other): an error is produced")
+	if err != nil {
+		var got string
+		ok := vNoPanic(func() { got = GetOnlyExplainErr(err.Error()) })
+		vAssert(ok, "C15 extractor(other): never fails")
+		if ok {
+			vAssert(got == want, "C15 extractor(other): explanation parts of the labelled clauses, in order")
+		}
+	}
+	vReach("end")
+}
